@@ -5,6 +5,31 @@ import os
 VERIF = os.path.dirname(os.path.dirname(os.path.abspath(__file__)))
 
 CHECKS = {
+    "C11": dict(
+        text="Coq theorems: the step-by-step interactive BFS reports, for ANY graph instance and ANY start list (unsorted, duplicates), exactly the sizes of the true layers "
+             "and its current layer IS the true layer (C11_ibfs_growth, C11_ibfs_layers); an unthinned BFS-mode walk returns every vertex once with its true distance "
+             "(C11_walks_bfs_exhaustive); the main BFS is C01. NumPy and bit-mask engines: executable Gallina models (NumpyBfs.v: per-generator frontier groups, setdiff against the "
+             "two previous layers, skipped inverse; Bitmask.v: chunk maps, rank/unrank through the 8! prefix table, popcount) evaluated in Coq on the implementation's cases and "
+             "required to give exactly its numbers; all four engines compared with the main BFS and with a naive Python BFS (NumPy engine on coset central states and depth limits, "
+             "interactive engine from start sets on directed/matrix/multi-word graphs, bit-mask engine on n=9 (quick) / n=10 (thorough) families with and without depth limit).",
+        note="PARTIAL: for the NumPy and bit-mask engines the deciding evidence is the model/implementation correspondence plus the comparison with the proved engines; the growth "
+             "theorems for those two models are not proved. The bit-mask whole-engine loop (gray/black bit sets over numba arrays) is compared end-to-end only. Trusted: as C01/C07.",
+        technique="Coq proof (interactive engine and unthinned walk, unbounded) + model/implementation correspondence for the NumPy and bit-mask engines + cross-engine comparison",
+        design="7 (C11)"),
+    "C15": dict(
+        text="Coq theorems about Families.v (one Gallina constructor per library family). GENERAL in n (and k): lrx, lx, top_spin, pancake, coxeter, cyclic_coxeter, stars, "
+             "all_transpositions, full_reversals, down_cycles, prefix_cycles, consecutive_k_cycles - every generator is a permutation of n points, the count formula, the names, the "
+             "documented action on sequences (shift, swap, reversal of x[i..j], rotation of x[i..j]), inverse-closed exactly as documented. ALL families (incl. derangements, "
+             "conjugacy classes, block interchange, transposons, Rapaport, Sheveleva, Koltsov, signed/burnt, SL and Heisenberg matrices): the boolean acceptance check "
+             "(validity, count, names, structure, inverse-closedness) is proved to mean what it says and holds for EVERY parameter tuple up to the stated bound by kernel computation "
+             "(the property's own quantifier is bounded by enumerability). Tie: exhaustive equality model = implementation over the same bounded parameter domain (definitions AND "
+             "error classes), an independent docstring oracle in Python (group orders for A_n / SL(n,Z/m) / Heisenberg), T4 translator of prepare_graph's dispatch chain + lookup == constructor, "
+             "own name -> same definition.",
+        note="Interpretation (DESIGN.md C15): 'Cayley graph for S_n' names the ambient group; orders are asserted only where the docstring names the generated group. Self-inconsistent "
+             "docstrings are read as recorded in the evidence (doc_notes). Randomised families (rand_generators, random conjugacy representatives) are checked through recorded shuffles. "
+             "Trusted: Coq kernel + vm_compute, Families.v (validated exhaustively), T4.",
+        technique="Coq proof (general-n theorems for index-list families + kernel-computed bounded theorem for all families) + exhaustive model/implementation equality + dispatch translator",
+        design="7 (C15)"),
     "C14": dict(
         text="Two Coq obligations. (1) From the CURRENT source: translator T2 regenerates the table of every attribute write in the library (assignments, augmented, subscript "
              "stores, del, setattr; fail-closed on dynamic forms) and Coq re-proves that each one is in a constructor, on an object created in the same function, on a "
@@ -160,6 +185,8 @@ CHECKS = {
         design="7 (C20)"),
 }
 
+NA_REASON = {}
+
 ALL = ["C%02d" % i for i in range(1, 21)]
 
 
@@ -180,7 +207,7 @@ def main():
             "level_note": c["note"],
             "technique": c["technique"],
         })
-    na = [{"property_id": p, "reason": "check not built yet in this development (work in progress; see DESIGN.md section 10 build order)"}
+    na = [{"property_id": p, "reason": NA_REASON.get(p, "check not built yet in this development (work in progress; see DESIGN.md section 10 build order)")}
           for p in ALL if p not in CHECKS]
     m = {
         "version": 1,
